@@ -579,7 +579,7 @@ def slices(b, form="list", kind="fresh", nonneg=False, ragged=True):
     return sl
 
 
-@entry("decomposition.parafac2", ("list", "tuple", "tensor", "list_tview", "list_sview", "svd", "init_cp", "init_p2", "init_p2_obj",
+@entry("decomposition.parafac2", ("list", "tuple", "tensor", "list_tview", "list_sview", "svd", "init_cp", "init_cp_weights", "init_p2", "init_p2_obj", "init_p2_weights",
                                   "nn_modes", "nn_modes_all", "nn_modes_tuple", "normalize", "linesearch", "errors", "invalid_init"), FLOATS)
 def _(b, k):
     f = D().parafac2
@@ -593,9 +593,11 @@ def _(b, k):
         return Call(f, sl, RANK, init="svd", **kw)
     if k == "init_cp":
         return Call(f, sl, RANK, init=b.cp((3, 4, 3), RANK, "tuple"), **kw)
-    if k in ("init_p2", "init_p2_obj"):
+    if k == "init_cp_weights":
+        return Call(f, sl, RANK, init=b.cp((3, 4, 3), RANK, "obj", "nonunit"), **kw)
+    if k in ("init_p2", "init_p2_obj", "init_p2_weights"):
         from tensorly.parafac2_tensor import Parafac2Tensor
-        w = np.ones(RANK, dtype=b.dtype)
+        w = np.ones(RANK, dtype=b.dtype) if k != "init_p2_weights" else (np.arange(RANK) + 2).astype(b.dtype)
         A, Bm, C = b.raw((3, RANK)), b.raw((RANK, RANK)), b.raw((3, RANK))
         projs = [np.linalg.qr(b.raw((4, RANK)))[0].astype(b.dtype) for _ in range(3)]
         init = (w, [A, Bm, C], projs)
@@ -887,10 +889,10 @@ def _(b, k):
     return Call(f, tuple(sl) if form_of(k) == "tuple" else sl)
 
 
-@entry("preprocessing.svd_decompress_parafac2_tensor", ("tuple", "list", "obj", "with_none"), FLOATS)
+@entry("preprocessing.svd_decompress_parafac2_tensor", ("tuple", "list", "obj", "with_none", "weights_nonunit"), FLOATS)
 def _(b, k):
     from tensorly.preprocessing import svd_decompress_parafac2_tensor as f
-    p2 = b.p2(form_of(k) if k != "with_none" else "tuple")
+    p2 = b.p2(form_of(k) if k not in ("with_none", "weights_nonunit") else "tuple", "nonunit" if k == "weights_nonunit" else "ones")
     projs = p2[2] if not hasattr(p2, "projections") else p2.projections
     loads = [np.linalg.qr(b.raw((7, p.shape[0])))[0].astype(b.dtype) for p in projs]
     if k == "with_none":
